@@ -83,7 +83,7 @@ class Result:
         s.routes = []; s.reached = {}; s.stats = {}; s.wall = 0.0; s.funcs = []; s.samples = []; s.asserts = 0; s.models_used = []
     def ok(s): return not s.bugs and not s.inconclusive
 
-def run_harness(ll, entry, params=None, setup=None, on_end=None, env_models=None, witness=None, eng_opts=None, args=(), max_bugs=8, allow_throw=None):
+def run_harness(ll, entry, params=None, setup=None, on_end=None, env_models=None, witness=None, eng_opts=None, args=(), max_bugs=8, allow_throw=None, time_limit=None):
     """Symbolically execute harness entry `entry` of module `ll` over all paths.
     params: dict of concrete harness parameters (read by models such as verif_len)
     Returns Result."""
@@ -114,7 +114,7 @@ def run_harness(ll, entry, params=None, setup=None, on_end=None, env_models=None
                 return ('bug', E.Bug('escaped-exception', 'exception of type %s escaped the harness' % tn, st_.model))
         if on_end: return on_end(eng, out, st_)
         return None
-    results = eng.explore(st, on_end=end)
+    results = eng.explore(st, on_end=end, time_limit=time_limit)
     for out, s_ in results:
         d = describe(out)
         key = d if out[0] not in ('bug', 'inconclusive') else d[:200]
@@ -146,8 +146,10 @@ def run_harness(ll, entry, params=None, setup=None, on_end=None, env_models=None
     return res
 
 # ---------------------------------------------------------------------------- native replay
-NATIVE_FLAGS = ['-std=gnu++17', '-DNDEBUG', '-DDJINTEROP_SOURCE', '-O1', '-g', '-fno-omit-frame-pointer', '-w']
-SAN = ['-fsanitize=address,undefined', '-fno-sanitize-recover=all']
+NATIVE_FLAGS = ['-std=gnu++17', '-DNDEBUG', '-DDJINTEROP_SOURCE', '-DVERIF_NATIVE', '-O1', '-g', '-fno-omit-frame-pointer', '-w']
+# nonnull-attribute is off: memcpy(dst, nullptr, 0) from an empty std::vector is flagged by it, is accepted by every libc and
+# defined by C2y; it would abort replays before they reach the behaviour being replayed (stated as outside in DESIGN.md)
+SAN = ['-fsanitize=address,undefined', '-fno-sanitize=nonnull-attribute', '-fno-sanitize-recover=all']
 def build_native(name, extra_src=(), libs=('-lz',), sanitize=True, tag=''):
     """build harness/<name> natively (clang, ASan+UBSan) against /repo's current sources"""
     os.makedirs(BUILD, exist_ok=True)
